@@ -35,6 +35,7 @@ def slice_values(kind, e, rnd=None):
     elif kind == 'I': out = ['I:1'] if e >= 2 else []
     elif kind == 'R': out = ['R:1:3'] if e >= 3 else []
     elif kind == 'S': out = ['S:%d:4:2' % o for o in range(0, e - 4 + 1)]
+    elif kind == 'Q': out = ['Q:%d:5:2' % o for o in range(0, e - 5 + 1)]
     return out
 
 def parse_slice(s):
@@ -94,6 +95,7 @@ def gen_cases(seed, tier, insts):
             if p is not None: doms.append([p])
             elif k == 'R': doms.append([3, 4])
             elif k == 'S': doms.append([4, 5, 6])
+            elif k == 'Q': doms.append([5, 6, 7])
             elif k == 'I': doms.append([2, 3])
             else: doms.append(list(small))
         exts = list(itertools.product(*doms))
